@@ -680,7 +680,7 @@ class Interp:
         if isinstance(val, AObj):
             m = self.idx.resolve_method(val.cls, "__str__")
             if m and not val.opaque:
-                return self.strify(self.call_function(m, [], self_obj=val))
+                return self.strify(self.apply(BoundMethod(val, m), [], {}, f"str({val.label or val.cls})"))
             return Opaque(f"str({val.label or val.cls})")
         if isinstance(val, EnumV):
             return str(val.value) if isinstance(val.value, str) else f"{val.cls}.{val.member}"
